@@ -1200,7 +1200,8 @@ def rule_effective_spec(model):
 RULES_PLAIN = [rule_mutation, rule_stability, rule_predicate, rule_twins,
                rule_direction, rule_pair_key, rule_effective_spec,
                rule_comparator_ties]
-RULES = [_inl(r_) for r_ in RULES_PLAIN] if INLINED_VIEW else RULES_PLAIN
+RULES = [_inl(r_) if r_ is rule_effective_spec else r_
+         for r_ in RULES_PLAIN]
 EXPLANATION = (
     'Flow-sensitive may-alias analysis of caller data against every '
     'mutating operation in DT_In/DT_InSV; keyed-sort query; predicate '
